@@ -52,3 +52,5 @@ CONSTANTS
  Restore = FALSE
  Regulate_ = FALSE
  OptFlips = {"auto_pub", "offline"}
+ FreeIdSends = FALSE
+ Msgs = {"m1"}
